@@ -189,6 +189,21 @@ class AI:
         finally:
             self.depth -= 1
 
+    def apply(self, f, args, env):
+        """a closure value (or a workspace function item) applied to abstract arguments"""
+        t, pl, ks = sym.NODES[f]
+        if t == "closure":
+            fn = self.ctx.world.by_pretty.get(pl[0]) or self.ctx.world.fns.get(pl[0])
+            if fn is not None and fn.arg_count == 1 + len(args):
+                r = self.call(fn, [self.ev(f, env)] + list(args))
+                return r if r == ("panic",) else r[0]
+        if t == "fnref":
+            fn = self.ctx.world.by_pretty.get(str(pl[0])) or (self.ctx.world.fns.get(pl[1]) if len(pl) > 1 else None)
+            if fn is not None and fn.arg_count == len(args):
+                r = self.call(fn, list(args))
+                return r if r == ("panic",) else r[0]
+        raise Undet("application of %s" % sym.show(f, 3))
+
     def ev(self, v, env):
         c = self.c
         if v in env:
@@ -207,6 +222,8 @@ class AI:
                     return base.mag
             if isinstance(base, tuple) and base and base[0] == "tuple":
                 return base[1][int(pl[0])]
+            if isinstance(base, tuple) and base and base[0] == "closure" and pl[0].isdigit():
+                return base[2][int(pl[0])]
             raise Undet("field %s of %r" % (pl[0], base))
         if t == "agg":
             adt, variant, names = pl
@@ -286,6 +303,9 @@ class AI:
                         raise Panic("division by zero")
                 term = (base, a, b)
                 return ("ok", term) if checked else term
+            if nm == "u.abs_diff":
+                a, b = self.ev(ks[0], env), self.ev(ks[1], env)
+                return ("sub", a, b) if self.mag_ge(a, b) else ("sub", b, a)
             if nm in ("lt", "le", "gt", "ge", "eq", "ne"):
                 a, b = self.ev(ks[0], env), self.ev(ks[1], env)
                 if isinstance(a, bool) and isinstance(b, bool):
@@ -314,7 +334,23 @@ class AI:
                 return r[0]
             if name.startswith(("std::fmt::", "core::fmt::")) or name.endswith("::to_string"):
                 return ("ok", "unit")  # formatting succeeds; only which writes happen matters
+            short = name.split("::")[-1]
+            if name.startswith(("std::result::Result::", "std::option::Option::", "core::result::Result::", "core::option::Option::")) and \
+                    short in ("map", "map_err", "and_then", "ok", "ok_or", "ok_or_else", "or_else") and ks:
+                # a combinator is the `match` it abbreviates: the closure runs on the payload of the variant it is for
+                x = self.ev(ks[0], env)
+                if not (isinstance(x, tuple) and x and x[0] in ("ok", "err")):
+                    raise Undet("call %s on %r" % (name, x))
+                if short in ("map", "and_then"):
+                    if x[0] == "err":
+                        return x
+                    r = self.apply(ks[1], [x[1]], env)
+                    return ("ok", r) if short == "map" else r
+                if short in ("map_err", "ok", "ok_or", "ok_or_else"):
+                    return x if x[0] == "ok" else ("err",)
             raise Undet("call %s" % name)
+        if t == "closure":
+            return ("closure", pl[0], [self.ev(k, env) for k in ks])
         if t == "constdef" and pl[0].endswith("Integer::ZERO"):
             return AInt(False, "0")
         raise Undet("value %s" % sym.show(v, 3))
